@@ -66,3 +66,24 @@ package store
 //@     invariant forall i int :: 0 <= i && i < left ==> r.Heads[i].Name < branchName
 //@     invariant forall i int :: right <= i && i < len(r.Heads) ==> branchName < r.Heads[i].Name
 //@     decreases right - left
+
+//@ func Index.GetEntriesByDirectory
+//@   returns es
+//@   pure
+//@   requires wfEntries(idx.Entries)
+//@   ensures [sound] {C06,C09} forall j int :: 0 <= j && j < len(es) ==> es[j] != nil && under(dirName, string(es[j].Path)) && (exists i int :: 0 <= i && i < len(idx.Entries) && idx.Entries[i] == es[j])
+//@   ensures [complete] {C06,C09} forall i int :: 0 <= i && i < len(idx.Entries) && under(dirName, string(idx.Entries[i].Path)) ==> exists j int :: 0 <= j && j < len(es) && es[j] == idx.Entries[i]
+//@   loop 0:
+//@     invariant forall j int :: 0 <= j && j < len(entries) ==> entries[j] != nil && under(dirName, string(entries[j].Path)) && (exists i int :: 0 <= i && i < it && idx.Entries[i] == entries[j])
+//@     invariant forall i int :: 0 <= i && i < it && under(dirName, string(idx.Entries[i].Path)) ==> exists j int :: 0 <= j && j < len(entries) && entries[j] == idx.Entries[i]
+
+//@ func Index.IsRegisteredAsDirectory
+//@   returns yes
+//@   pure
+//@   requires wfEntries(idx.Entries)
+//@   ensures [iff] {C06,C04,C09} yes <==> (exists i int :: 0 <= i && i < len(idx.Entries) && under(dirName, string(idx.Entries[i].Path)))
+//@   loop 0:
+//@     invariant 0 <= left && left <= right && right <= len(idx.Entries)
+//@     invariant forall i int :: 0 <= i && i < left ==> string(idx.Entries[i].Path) <= dirName + "/"
+//@     invariant forall i int :: right <= i && i < len(idx.Entries) ==> dirName + "/" < string(idx.Entries[i].Path)
+//@     decreases right - left
